@@ -460,62 +460,110 @@ Fixpoint oracle_from (s : ost) (ops : list op) (obs : list (list Z)) : bool :=
 
 Definition timer_oracle (ops obs : list (list Z)) : bool := oracle_from ost0 (map decode ops) obs.
 
-(* ---------- the worker (worker_coro, scheduler.h:371-414) over the same array + a virtual clock ----------
-   One iteration of the loop after the lock is re-taken (l.389-412): now = clock; get_expired_lk(now);
-   a promise is resolved, otherwise the thread waits on _cond until the returned time point (time_point::max
-   when the heap is empty).  Other threads act between iterations / while the worker waits (the lock is free
-   then): schedule (notifies iff the heap was empty or the new time point is earlier than _scheduled[0]._tp,
-   l.91-96), remove/cancel (never notifies), request_stop (the stop callback notifies, l.373-375). *)
+(* ---------- the worker (worker_coro, scheduler.h:372-416) over the same array + a virtual clock ----------
+   The loop after the lock is re-taken (l.389-414) is split where another thread can interfere:
+     WIter   l.390-392  stop requested -> the loop is left (WFin); otherwise now = clock; get_expired_lk(now): a promise
+                        is resolved (l.395-399), or the thread has DECIDED to wait until the returned time point
+                        (WDecided; time_point::max = None when the heap is empty) — it still holds _mx
+     WBlock  l.405/410  it enters _cond.wait_until(lk, state, x, pred): _mx is released and the thread blocks (WWait)
+   Other threads: schedule (needs _mx; notifies iff the heap was empty or the new time point is earlier than
+   _scheduled[0]._tp, l.91-96), remove/cancel (needs _mx; never notifies), clock ticks, spurious wake-ups, and
+   request_stop — which does NOT take _mx (the stop callback only calls notify_all, l.373-375) and can therefore land
+   between WIter and WBlock.
+   `aw` selects the wait primitive: true = the current code, condition_variable_any::wait_until with the stop token and
+   the predicate `!_scheduled.empty() && _scheduled[0]._tp < x` (a stop request is seen when entering the wait and
+   always wakes it; a notification ends the wait only if the predicate holds); false = the code before the repair of
+   F-C12d, plain condition_variable::wait_until(lk, x) (any notification wakes, a stop request in the window is lost). *)
 Inductive wmode :=
-| WRun                                  (* not blocked *)
-| WWait (d : option Z) (ntf : bool).    (* blocked in wait_until(d) (None = time_point::max); notified since? *)
+| WRun                                  (* between iterations, not blocked *)
+| WDecided (d : option Z)               (* holds _mx, about to call wait_until(d) *)
+| WWait (d : option Z) (ntf : bool)     (* blocked in wait_until(d) (None = time_point::max); woken since? *)
+| WFin.                                 (* the loop was left: the worker coroutine has finished *)
 
 Record wst := mkW { w_sched : list entry; w_now : Z; w_mode : wmode; w_stop : bool;
                     w_done : list (entry * Z);       (* promises resolved by the worker, with its clock reading *)
-                    w_err : bool }.
-Definition wst0 : wst := mkW [] 0 WRun false [] false.
+                    w_err : bool;
+                    w_in : list entry;               (* entries accepted from schedule calls *)
+                    w_rm : list entry }.             (* entries whose promise a remove / cancel call took *)
+Definition wst0 : wst := mkW [] 0 WRun false [] false [] [].
 
 Inductive wev :=
 | WSchedule (pid : nat) (id tp : Z)
 | WRemove (id : Z)
 | WTick (dt : Z)
-| WIter          (* the worker thread gets to run one iteration, if it is runnable *)
+| WIter          (* the worker thread runs one iteration up to its decision, if it is runnable *)
+| WBlock         (* the worker thread, having decided to wait, enters wait_until *)
 | WSpurious      (* condition_variable spurious wake-up *)
 | WStop.
 
-Definition notify (m : wmode) : wmode := match m with WWait d _ => WWait d true | WRun => WRun end.
+(* the wait predicate, scheduler.h:405/410 *)
+Definition wake_pred (l : list entry) (d : option Z) : bool :=
+  match l with
+  | [] => false
+  | t :: _ => match d with Some x => e_tp t <? x | None => true end
+  end.
+
+(* notify_all() reaching a blocked worker *)
+Definition notify (aw : bool) (l : list entry) (m : wmode) : wmode :=
+  match m with
+  | WWait d n => WWait d (n || (if aw then wake_pred l d else true))
+  | _ => m
+  end.
+
+Definition lock_held (w : wst) : bool := match w_mode w with WDecided _ => true | _ => false end.
 
 Definition runnable (w : wst) : bool :=
   match w_mode w with
   | WRun => true
+  | WDecided _ => false
   | WWait d ntf => ntf || match d with Some t => t <=? w_now w | None => false end
+  | WFin => false
   end.
 
-Definition wstep (w : wst) (e : wev) : wst :=
+Definition set_mode (w : wst) (m : wmode) : wst :=
+  mkW (w_sched w) (w_now w) m (w_stop w) (w_done w) (w_err w) (w_in w) (w_rm w).
+
+Definition wstep (aw : bool) (w : wst) (e : wev) : wst :=
   if w_err w then w else
   match e with
   | WSchedule pid id tp =>
-      let '(l, ntf) := schedule (w_sched w) (mkE tp (Some pid) id) in
-      mkW l (w_now w) (if ntf then notify (w_mode w) else w_mode w) (w_stop w) (w_done w) false
+      if lock_held w then w else                              (* std::lock_guard _(_mx) has to wait *)
+      let en := mkE tp (Some pid) id in
+      let '(l, ntf) := schedule (w_sched w) en in
+      mkW l (w_now w) (if ntf then notify aw l (w_mode w) else w_mode w) (w_stop w) (w_done w) false
+          (en :: w_in w) (w_rm w)
   | WRemove id =>
+      if lock_held w then w else
       match remove (w_sched w) id with
-      | Ok r => mkW (fst r) (w_now w) (w_mode w) (w_stop w) (w_done w) false
-      | _ => mkW (w_sched w) (w_now w) (w_mode w) (w_stop w) (w_done w) true
+      | Ok r => mkW (fst r) (w_now w) (w_mode w) (w_stop w) (w_done w) false (w_in w)
+                    (match snd r with Some t => t :: w_rm w | None => w_rm w end)
+      | _ => mkW (w_sched w) (w_now w) (w_mode w) (w_stop w) (w_done w) true (w_in w) (w_rm w)
       end
-  | WTick dt => mkW (w_sched w) (w_now w + Z.max 0 dt) (w_mode w) (w_stop w) (w_done w) false
-  | WSpurious => mkW (w_sched w) (w_now w) (notify (w_mode w)) (w_stop w) (w_done w) false
-  | WStop => mkW (w_sched w) (w_now w) (notify (w_mode w)) true (w_done w) false
+  | WTick dt => mkW (w_sched w) (w_now w + Z.max 0 dt) (w_mode w) (w_stop w) (w_done w) false (w_in w) (w_rm w)
+  | WSpurious => set_mode w (notify aw (w_sched w) (w_mode w))
+  | WStop =>
+      (* request_stop(): the flag, then the callbacks; a blocked worker is woken whatever the predicate says *)
+      mkW (w_sched w) (w_now w) (match w_mode w with WWait d _ => WWait d true | m => m end) true (w_done w) false
+          (w_in w) (w_rm w)
+  | WBlock =>
+      match w_mode w with
+      | WDecided d =>
+          if aw && w_stop w then set_mode w WRun              (* wait_until sees the stop request and returns at once *)
+          else set_mode w (WWait d false)
+      | _ => w
+      end
   | WIter =>
-      if w_stop w || negb (runnable w) then w else           (* l.382, l.390 *)
+      if negb (runnable w) then w else
+      if w_stop w then set_mode w WFin else                   (* l.382, l.390 *)
       match get_expired (w_sched w) (w_now w) with            (* l.391-392 *)
-      | Ok (l, ExpP t) => mkW l (w_now w) WRun false ((t, w_now w) :: w_done w) false        (* l.395-400 *)
-      | Ok (l, ExpT tp) => mkW l (w_now w) (WWait (Some tp) false) false (w_done w) false    (* l.404-408 *)
-      | Ok (l, ExpMax) => mkW l (w_now w) (WWait None false) false (w_done w) false
-      | _ => mkW (w_sched w) (w_now w) (w_mode w) (w_stop w) (w_done w) true
+      | Ok (l, ExpP t) => mkW l (w_now w) WRun false ((t, w_now w) :: w_done w) false (w_in w) (w_rm w)   (* l.395-399 *)
+      | Ok (l, ExpT tp) => mkW l (w_now w) (WDecided (Some tp)) false (w_done w) false (w_in w) (w_rm w)
+      | Ok (l, ExpMax) => mkW l (w_now w) (WDecided None) false (w_done w) false (w_in w) (w_rm w)
+      | _ => mkW (w_sched w) (w_now w) (w_mode w) (w_stop w) (w_done w) true (w_in w) (w_rm w)
       end
   end.
 
-Definition wrun (w : wst) (l : list wev) : wst := fold_left wstep l w.
+Definition wrun (aw : bool) (w : wst) (l : list wev) : wst := fold_left (wstep aw) l w.
 
 (* ---------- engine "tst": scheduler::start(awaitable) in one thread (scheduler.h:229-283) ----------
    Coroutine k sleeps until base+off for each off of its list, logging every wake-up.  All coroutines are
@@ -554,8 +602,15 @@ Fixpoint start_loop (fuel : nat) (l : list entry) (cs : list (list Z)) : list Z 
   end.
 
 Definition okoff (o : Z) : bool := (0 <=? o) && (o <=? 400).
+(* a coroutine's time points must not go backwards: a later sleep with an earlier (already past) time point wakes
+   "out of order" legitimately, and the order check below is global *)
+Fixpoint nondecr (l : list Z) : bool :=
+  match l with
+  | a :: ((b :: _) as t) => (a <=? b) && nondecr t
+  | _ => true
+  end.
 Definition decode_start (ops : list (list Z)) : option (list (list Z)) :=
-  if forallb (fun o => match o with 1 :: offs => forallb okoff offs && negb (is_empty offs) | _ => false end) ops
+  if forallb (fun o => match o with 1 :: offs => forallb okoff offs && negb (is_empty offs) && nondecr offs | _ => false end) ops
      && (1 <=? length ops)%nat && (length ops <=? 4)%nat
   then Some (map (fun o => tl o) ops) else None.
 
@@ -711,27 +766,35 @@ Definition interval_oracle (ops obs : list (list Z)) : bool :=
    cancel(far id).  Expressed through the worker model above. *)
 Definition thread_events (far near : Z) : list wev :=
   (if 0 <? far then [WSchedule 0 1 far] else []) ++
-  [WIter; WTick 60; WSchedule 1 2 (60 + near); WTick near; WIter; WIter; WIter].
+  [WIter; WBlock; WTick 60; WSchedule 1 2 (60 + near); WTick near;
+   WIter; WBlock; WIter; WBlock; WIter; WBlock].
 
 Definition done_pid (w : wst) (p : nat) : bool :=
   existsb (fun x => match e_p (fst x) with Some q => Nat.eqb p q | None => false end) (w_done w).
 
+Definition is_fin (w : wst) : bool := match w_mode w with WFin => true | _ => false end.
+
+(* ops [1; far; near] / [2; far]: scheduler in its own std::thread (worker_coro<false>);
+   ops [3; far; near] / [4; far]: the same scenarios with the scheduler started in a thread_pool (worker_coro<true>) *)
 Definition thread_obs (o : list Z) : list Z :=
-  match o with
-  | [1; far; near] =>
+  let idle far near :=
       if (0 <=? far) && (far <=? 100000) && (1 <=? near) && (near <=? 200) then
-        let w := wrun wst0 (thread_events far near) in
+        let w := wrun true wst0 (thread_events far near) in
         [0; b2z (done_pid w 1); if far =? 0 then 0 else if done_pid w 0 then 1 else 3]
-      else [1]
-  | [2; far] =>
-      (* stop request racing with the worker's decision to wait (harness: worker held at the "sched_wait" point while
-         ~scheduler runs): the worker has looked at the heap and is about to block; request_stop must still reach it —
-         ~scheduler returns iff the worker becomes runnable; a far sleep is then cancelled by destruction.
-         (stop-token-aware wait_until, scheduler.h:405/410) *)
+      else [1] in
+  (* stop request racing with the worker's decision to wait (harness: worker held at the "sched_wait" point while
+     ~scheduler runs): the worker has looked at the heap and is about to block; request_stop must still end it —
+     ~scheduler returns iff the worker finishes; a far sleep is then cancelled by destruction *)
+  let race far :=
       if (far =? 0) || ((10000 <=? far) && (far <=? 100000)) then
-        let w := wrun wst0 ((if 0 <? far then [WSchedule 0 1 far] else []) ++ [WIter; WStop]) in
-        [0; b2z (runnable w && w_stop w); if far =? 0 then 0 else 2]
-      else [1]
+        let w := wrun true wst0 ((if 0 <? far then [WSchedule 0 1 far] else []) ++ [WIter; WStop; WBlock; WIter]) in
+        [0; b2z (is_fin w); if far =? 0 then 0 else 2]
+      else [1] in
+  match o with
+  | [1; far; near] => idle far near
+  | [2; far] => race far
+  | [3; far; near] => idle far near
+  | [4; far] => race far
   | _ => [1]
   end.
 
@@ -741,7 +804,7 @@ Definition thread_run (ops : list (list Z)) : list (list Z) := map thread_obs op
    or had expired — and it cannot have expired when its time point lies beyond the whole observation window *)
 Definition thread_ok (p : list Z * list Z) : bool :=
   match fst p with
-  | [2; far] =>
+  | [2; far] | [4; far] =>
       (* the destructor returned (no lost wake-up) and a still pending sleep was cancelled, not left hanging *)
       match thread_obs (fst p), snd p with
       | [1], [1] => true
